@@ -328,7 +328,21 @@ def rpds(r, alpha, ncar):
         n = r.choice((0, 1, 3, 10, r.randrange(0, 120), r.randrange(0, 400)))
         style = r.choice(('safe', 'digits', 'any'))
         out['PDS%04d' % tag] = rtext(r, n, alpha, style)
+    # stay within the capacity of the configured carriers (C12: "total within the capacity"): entries are dropped
+    # until the documented packing (ascending tags, 999 characters per carrier, no entry split) needs at most ncar
+    while out and _carriers_needed(out) > max(1, ncar):
+        out.pop(sorted(out)[-1])
     return out
+
+
+def _carriers_needed(items):
+    n, cur = 0, 0
+    for k in sorted(items):
+        w = 7 + len(items[k])
+        if cur and cur + w > 999:
+            n, cur = n + 1, 0
+        cur += w
+    return n + (1 if cur else 0)
 
 
 def gen_message(r, bit_config, alpha, maxbits=12):
